@@ -261,7 +261,7 @@ def memo_guard(f, lp, l, exclude=frozenset()):
                   "(key != memo; memo := key; initial memo NaN)" % f.lname(l)
 
 
-@rule("R-LOOP-CARRIED", ["C02", "C07"])
+@rule("R-LOOP-CARRIED", ["C02", "C07", "C10", "C12"])
 def r_loop_carried(cx):
     pts = pertuple.all_per_tuple_loops(cx)
     if cx.pid == "C07":
@@ -349,7 +349,7 @@ def nan_test_edges(f, bb):
     while c[0] == "un" and c[1] == "Not":
         neg = not neg
         c = c[2]
-    if c[0] != "call" or not isinstance(c[1], str) or not (c[1].endswith("::any")):
+    if c[0] != "call" or not isinstance(c[1], str) or not (c[1].endswith("::any") or c[1].endswith("::all")):
         return None
     clos = c[2][1] if len(c[2]) > 1 else None
     if clos is None or clos[0] != "agg" or not (isinstance(clos[1], tuple) and clos[1][0] == "closure"):
@@ -361,6 +361,17 @@ def nan_test_edges(f, bb):
     if not any((cf.callee(tt) or "").endswith("f64>::is_nan") or (cf.callee(tt) or "").endswith("::is_nan")
                for _, tt in cf.calls()):
         return None
+    # does the closure answer `is NaN` or `is not NaN`?
+    import elems as E
+    rt = E.return_term(cf)
+    closure_negated = rt is not None and rt[0] == "un" and rt[1] == "Not"
+    if c[1].endswith("::any"):
+        if closure_negated:
+            return None          # any(|c| !c.is_nan()): "some element is a number" - not a NaN test of the tuple
+    else:
+        if not closure_negated:
+            return None          # all(|c| c.is_nan())
+        neg = not neg            # all(|c| !c.is_nan()) == !any(|c| c.is_nan())
     true_succ = t["otherwise"]
     false_succ = t["targets"][0][1] if t["targets"] else None
     nan_succ = false_succ if neg else true_succ
